@@ -15,7 +15,8 @@ RULE = ('SubmitSm values accepted by the constructor, queued one after the other
         'surrogates, TLVs with extreme values), every text length class (0, 1, 160/161, 254/255, multi-segment, > 255 segments) in '
         'GSM (with extension characters), UCS2 (with astral characters) and mixed text, with auto_message_payload on/off, UDHI bit '
         'on/off, explicit encodings; default alphabets gsm0338 / ucs2 / ascii / latin_1. Each message is followed by a plain one, '
-        'which must be transmitted. distinct-nontrivial = distinct (default alphabet, auto_message_payload, UDHI, explicit '
+        'which must be transmitted; plus whole queues (3..15 messages handed to the broker at once) compared with the loop model on the '
+        'generators\' state. distinct-nontrivial = distinct (default alphabet, auto_message_payload, UDHI, explicit '
         'encoding class, text class, outcome: number of PDUs or error class)')
 TRUSTED = ['Lean 4.33.0 kernel', 'axioms: propext, Quot.sound, Classical.choice',
            'tools/extract.py gen_catch (the isinstance tuple of _dequeue_messages by AST; class hierarchy from the interpreter)',
@@ -234,8 +235,97 @@ def predicate(o, m=None):
     return None
 
 
+def queue_case(rng, default, n):
+    """a whole queue handed to the broker at once: the Sender works through it with the sequence-number and reference
+    generators in whatever state they are; model line txq = the loop model on the same generator state"""
+    items = []
+    while len(items) < n:
+        g = gen_message(rng)
+        if g is None:
+            continue
+        m, _tag = g
+        if L.is_opaque(m.encoding) or L.is_opaque(default) or m.error_handling in L.REGISTERED_HANDLERS:
+            continue
+        if len(m.short_message or m.message_payload or '') > 5000:
+            continue
+        m.log_id = 'q%d' % len(items)
+        items.append(m)
+    lines = [L.show_msg(m) for m in items]
+    s = Sim(enquire_link_interval=1e6, socket_timeout=5.0, default_encoding=default)
+    res = {}
+    try:
+        order = []          # (log_id, pdu) in the order the sending hook was called
+        orig_sending = s.hook.sending
+
+        async def sending(m, p, cid):
+            if type(m).__name__ == 'SubmitSm':
+                order.append((m.log_id, bytes(p)))
+            await orig_sending(m, p, cid)
+        s.hook.sending = sending
+
+        async def env():
+            for _ in range(400):
+                if s.esme._bound.is_set() and s.esme.session_state.name.startswith('BOUND'):
+                    break
+                await asyncio.sleep(0.01)
+            sg, rg = s.esme.sequence_generator, s.esme._ref_seq_generator
+            res['gens'] = (sg.min_num, sg.max_num, sg.sequence_num, rg.sequence_num)
+            res['nconn'] = len(s.smsc.conns)
+            for m in items:
+                s.enqueue(m)
+            await asyncio.sleep(0.5)
+            res['done'] = s.start_task.done()
+            res['reconnected'] = len(s.smsc.conns) > res['nconn']
+            s.stop()
+        s.loop.create_task(env())
+        s.run(10 ** 6)
+        conn = s.smsc.conns[res.get('nconn', 1) - 1]
+        wire = [p for p in conn.pdus if p[4:8] == b'\x00\x00\x00\x04']
+        errors = [e for e in s.events if e[1] == 'send_error']
+    finally:
+        s.close()
+    # per message: PDUs announced for it that reached the wire, error handed to send_error
+    per = []
+    fail = None
+    written = [o for o in order if o[1] in wire]
+    for m in items:
+        ps = [p for lg, p in written if lg == m.log_id]
+        es = [e for e in errors if e[3] == m.log_id]
+        per.append((ps, es))
+    # predicate: exactly one result each; the wire carries the messages' PDUs in queue order, not interleaved
+    seen_logs = [lg for i, (lg, _p) in enumerate(written) if i == 0 or written[i - 1][0] != lg]
+    want_logs = [m.log_id for m, (ps, es) in zip(items, per) if ps]
+    if res.get('done'):
+        fail = 'start() ended after the queue was handed over'
+    elif seen_logs != want_logs:
+        fail = 'PDUs on the wire belong to messages %s, queued order %s' % (seen_logs[:12], want_logs[:12])
+    elif [p for _lg, p in written] != wire:
+        fail = 'the submit_sm PDUs on the wire are not those announced for the queued messages, in that order'
+    else:
+        for m, (ps, es) in zip(items, per):
+            if len(es) > 1 or (not es and not ps):
+                fail = 'message %s: %d PDUs written, send_error called %d times' % (m.log_id, len(ps), len(es))
+                break
+            if es and es[0][2] != 'SubmitSm':
+                fail = 'send_error for %s was handed a %s' % (m.log_id, es[0][2])
+                break
+    outs = []
+    for ps, es in per:
+        hexes = ';'.join(p.hex() for p in ps) or '-'
+        if es:
+            outs.append('failed %s %s continues' % (hexes, exc_class(es[0][4])))
+        else:
+            outs.append('sent %s' % hexes)
+    gens = res.get('gens', (1, 0x7FFFFFFF, 1, 0))
+    line = 'txq %s %d %d %d %d %s' % (L.enc_triple(default), gens[0], gens[1], gens[2], gens[3], ' | '.join(lines))
+    sig = ('txq', default, n, sum(1 for ps, es in per if es), sum(1 for ps, es in per if len(ps) > 1))
+    return Case(line, ' / '.join(outs), sig, fail, {'op': 'txq', 'default': default, 'lines': lines, 'gens': list(gens)})
+
+
 def generate(rng, tier):
     thorough = tier == 'thorough'
+    for _ in range(12 if thorough else 4):
+        yield queue_case(rng, rng.choice(('gsm0338', 'gsm0338', 'ucs2', 'latin_1')), rng.choice((3, 8, 15)))
     for _ in range(36 if thorough else 9):
         default = rng.choice(('gsm0338', 'gsm0338', 'ucs2', 'ascii', 'latin_1'))
         items = []
@@ -261,6 +351,9 @@ def generate(rng, tier):
 
 
 def replay(inp):
+    if inp.get('op') == 'txq':
+        g = inp['gens']
+        return Case('txq %s %d %d %d %d %s' % (L.enc_triple(inp['default']), g[0], g[1], g[2], g[3], ' | '.join(inp['lines'])), '', None, None, inp)
     return Case('tx %s %d %d %s' % (L.enc_triple(inp['default']), inp['ref'], inp['seq'], inp['line']), '', None, None, inp)
 
 
